@@ -65,7 +65,7 @@ PANICKING = [
     (r"alloc::collections::vec_deque::VecDeque::(remove|swap|insert|drain|range)$", "vecdeque"),
     (r"core::iter::traits::iterator::Iterator::(sum|product|step_by)$", "iter-arith"),
     (r"core::iter::traits::accum::(Sum|Product)::(sum|product)$", "iter-arith"),
-    (r"core::num::(pow|abs|next_power_of_two|ilog|ilog2|ilog10|div_euclid|rem_euclid)$", "int-arith"),
+    (r"core::num::(pow|abs|next_power_of_two|ilog|ilog2|ilog10|div_euclid|rem_euclid|div_ceil|div_floor|next_multiple_of|isqrt)$", "int-arith"),
     (r"core::cell::RefCell::(borrow|borrow_mut)$", "refcell"),
     (r"num_bigint::bigint::division::(div|rem)$", "bigint-div"),
     (r"num_bigint::biguint::division::(div|rem)$", "bigint-div"),
